@@ -96,11 +96,22 @@ def run_shards(check, specs, tier, nproc, stall_s, log=None):
                     except OSError:
                         age = 0
                     if age > stall_s:
+                        # SIGABRT first: the worker's faulthandler then writes the stacks of all its threads to its stderr file
+                        import signal as _signal
+                        try:
+                            p.send_signal(_signal.SIGABRT)
+                            p.wait(10)
+                        except Exception:  # noqa: BLE001
+                            pass
                         p.kill()
                         p.wait()
                         errf.close()
                         last = _last_wal(wal)
-                        failures.append({"shard": i, "kind": "stalled", "spec": spec, "last_case": last})
+                        try:
+                            err = open(os.path.join(tmp, "err_%d.txt" % i), "rb").read().decode("utf-8", "replace")[-6000:]
+                        except OSError:
+                            err = ""
+                        failures.append({"shard": i, "kind": "stalled", "spec": spec, "last_case": last, "stderr": err})
                         del running[i]
                     continue
                 errf.close()
@@ -204,7 +215,7 @@ def main(argv=None):
         if verdict and verdict[0] == "violation":
             unlisted.setdefault(verdict[1], []).append({"key": verdict[1], "witness": verdict[2]})
         elif f["kind"] == "stalled":
-            inconclusive.append("worker stalled (watchdog) on case %s" % (f.get("last_case"),))
+            inconclusive.append("worker stalled (watchdog) on case %s; stacks: %s" % (f.get("last_case"), " | ".join(l.strip() for l in (f.get("stderr") or "").splitlines() if l.strip())[-1800:]))
         else:
             internal.append("worker died rc=%s: %s" % (f.get("rc"), (f.get("stderr") or "")[-1500:]))
 
